@@ -29,6 +29,7 @@ import (
 	"strconv"
 	"strings"
 	"sync"
+	"sync/atomic"
 	"testing"
 	"time"
 
@@ -57,6 +58,11 @@ type Spec[C any] struct {
 	Thorough int    // total number of cases in the thorough tier (over all shards)
 	Draw     func(t *rapid.T) C
 	Run      func(c C) *Result
+	// Parallel > 0: after the sequential pass, the cases that passed (the last 400) are run again by this many
+	// goroutines at the same time, each case on its own objects. A Run that passes alone must pass next to others:
+	// the code under test may share nothing between unrelated objects (scratch buffers, caches, pooled encoders).
+	// Only for sub-checks whose Run touches no process-wide state of the harness.
+	Parallel int
 	// Excluded, when set, reports how many drawn cases were steered away from
 	// an open known finding (reported in evidence).
 }
@@ -339,7 +345,61 @@ func Register[C any](s Spec[C]) *Spec[C] {
 		}
 		return SafeRun(func() *Result { return sp.Run(c) }).Err
 	}
+	replays[s.Name+"@parallel"] = func(raw json.RawMessage) error {
+		var b parallelBatch[C]
+		if err := json.Unmarshal(raw, &b); err != nil {
+			return fmt.Errorf("replay file does not decode into a batch of cases: %v", err)
+		}
+		for round := 0; round < 60; round++ { // schedule dependent: many rounds
+			if _, err := sp.runBatch(b.Cases, b.G, 1); err != nil {
+				return err
+			}
+		}
+		return nil
+	}
 	return sp
+}
+
+type parallelBatch[C any] struct {
+	G     int `json:"g"`
+	Cases []C `json:"cases"`
+}
+
+// runBatch runs every case `rounds` times, spread over g goroutines that start together.
+func (s *Spec[C]) runBatch(cases []C, g, rounds int) (int64, error) {
+	if g < 2 {
+		g = 2
+	}
+	var wg sync.WaitGroup
+	var gate, failed atomic.Bool
+	var n atomic.Int64
+	var emu sync.Mutex
+	var first error
+	for w := 0; w < g; w++ {
+		wg.Add(1)
+		go func(w int) {
+			defer wg.Done()
+			for !gate.Load() {
+			}
+			for r := 0; r < rounds && !failed.Load(); r++ {
+				for i := (w + r) % g; i < len(cases) && !failed.Load(); i += g {
+					res := SafeRun(func() *Result { return s.Run(cases[i]) })
+					n.Add(1)
+					if res.Err != nil {
+						emu.Lock()
+						if first == nil {
+							first = fmt.Errorf("case %d of the batch, which passes on its own, fails while %d goroutines run other cases of the same sub-check on their own objects: %v", i, g, res.Err)
+						}
+						emu.Unlock()
+						failed.Store(true)
+					}
+				}
+			}
+		}(w)
+	}
+	gate.Store(true)
+	wg.Wait()
+	return n.Load(), first
 }
 
 func setFlag(name, v string) {
@@ -365,6 +425,7 @@ func (s *Spec[C]) Check(t *testing.T) {
 	if flag.Lookup("rapid.shrinktime") != nil && os.Getenv("VERIF_SHRINKTIME") != "" {
 		setFlag("rapid.shrinktime", os.Getenv("VERIF_SHRINKTIME"))
 	}
+	var kept []C
 	rapid.Check(t, func(rt *rapid.T) {
 		c := s.Draw(rt)
 		r := SafeRun(func() *Result { return s.Run(c) })
@@ -373,7 +434,28 @@ func (s *Spec[C]) Check(t *testing.T) {
 			saveReplay(s.Prop, s.Name, c, r.Err)
 			rt.Fatalf("%s/%s violated: %v", s.Prop, s.Name, r.Err)
 		}
+		if s.Parallel > 0 {
+			if len(kept) < 400 {
+				kept = append(kept, c)
+			} else {
+				kept[int(sb.Evaluations)%400] = c
+			}
+		}
 	})
+	if s.Parallel > 0 && !t.Failed() && len(kept) >= 2 {
+		runs, err := s.runBatch(kept, s.Parallel, Pick(3, 12))
+		mu.Lock()
+		sb.Evaluations += runs
+		if sb.Classes == nil {
+			sb.Classes = map[string]int64{}
+		}
+		sb.Classes["re-run-concurrently-with-other-cases"] += runs
+		mu.Unlock()
+		if err != nil {
+			saveReplay(s.Prop, s.Name+"@parallel", parallelBatch[C]{G: s.Parallel, Cases: kept}, err)
+			t.Fatalf("%s/%s violated: %v", s.Prop, s.Name, err)
+		}
+	}
 }
 
 // RunCase executes one hand-written or enumerated case through the same
